@@ -656,7 +656,9 @@ func MaxLengthPath(cur *Node, prev *Node) ([]*Edge, float64, error) {
 			if err != nil {
 				return nil, -1, err
 			}
-			if l+e.Length() > curlength {
+			// The first path is always taken, so that the returned path
+			// ends at a tip even if its last branches have a length of 0
+			if potentialedges == nil || l+e.Length() > curlength {
 				curlength = l + e.Length()
 				potentialedges = append(edges, e)
 			}
